@@ -160,3 +160,37 @@ Definition check_completion (Fin : list Q) (g : lalg Q) (tol : Q) : bool :=
   | Some r => all_abs_lt (lp_coefs r) tol
   | None => false
   end.
+
+(* ---- C02 / C05: the Wx corner <0|U_x|0> = sum_k (A_k + i B_k) T_|k|(a).
+   corner_diff A Fr = (A + ~A)/2 - Fr  as a Laurent polynomial; with Fr the exact Laurent form of
+   the real (imaginary) part of the target polynomial its coefficient 1-norm bounds the distance
+   of the real (imaginary) parts of corner and target on all of [-1,1]. *)
+Section Corner.
+  Context {D : Type} (O : Ops D) (half : D).
+  Definition corner_diff (A Fr : lpoly D) : option (lpoly D) :=
+    do s <- lp_add O A (lp_inv O A); lp_sub O (lp_scale O half s) Fr.
+End Corner.
+
+(* exact rational version (C05): returned element g, target P = Pre + i Pim (monomial coefficients) *)
+Definition corner_norm_q (g : lalg Q) (Pre Pim : list Q) : option Q :=
+  do Fr <- target_F Pre; do Fi <- target_F Pim;
+  do dA <- corner_diff OpsQ qhalf1 (la_I g) Fr;
+  do dB <- corner_diff OpsQ qhalf1 (la_X g) Fi;
+  Some (qadd (Qnorm1 (lp_coefs dA)) (Qnorm1 (lp_coefs dB))).
+Definition check_pcompletion (Pre Pim : list Q) (g : lalg Q) (tol ctol : Q) : bool :=
+  match unit_residual (la_I g) (la_X g) with
+  | Some r => all_abs_lt (lp_coefs r) tol
+  | None => false
+  end &&
+  match corner_norm_q g Pre Pim with Some n => Qleb n ctol | None => false end.
+
+(* interval version (C02): phases -> element -> corner *)
+Definition corner_norm_i (phis Pre Pim : list Q) : option Z :=
+  do g <- resp_elem phis;
+  do Fr <- target_F Pre; do Fi <- target_F Pim;
+  do dA <- corner_diff OpsI (iofQ qhalf1) (la_I g) (lpQ2I Fr);
+  do dB <- corner_diff OpsI (iofQ qhalf1) (la_X g) (lpQ2I Fi);
+  Some (sum_ub (lp_coefs dA) + sum_ub (lp_coefs dB))%Z.
+Definition check_c02 (phis Pre Pim : list Q) (tol : Q) : bool :=
+  Nat.eqb (length phis) (length Pre) && Nat.eqb (length Pre) (length Pim) &&
+  match corner_norm_i phis Pre Pim with Some n => scaled_le_q n (Qmult (100 # 1) tol) | None => false end.
